@@ -92,3 +92,29 @@ def twin(I):
     impl = I.call_value(I.get_function(f"{MP}:plan_mutator"), Pi, noop)
     rg = I.call_value(I.global_lookup(ref, "ref_swallow_return"), Pr)
     b.run(impl, rg)
+
+
+# ================================================================================================ bounded stand-in (native): long plans
+LONG_BOUND = ("native run of the real plan_mutator / msg_mutator on a plan of 6000 fresh messages that nothing else keeps alive (garbage collected "
+              "while the plan runs, addresses recycled): the proof's assumption 'id() is injective on the messages the mutator remembers' is exercised")
+E_LONG = "bounded:C20 on a long plan every distinct message is handed to the processor exactly once and every response reaches its own yield"
+
+
+@task("native.long_plans", PROP, bounded=LONG_BOUND, expect=[E_LONG])
+def native_long_plans(I):
+    import json
+    import subprocess
+    from pyvc.runner import ROOT
+    env = dict(os.environ, PYTHONPATH=ROOT, VERIF_REPO=os.environ.get("VERIF_REPO", "/repo"))
+    try:
+        p = subprocess.run(["/venv/bin/python", os.path.join(ROOT, "replay", "long_plans.py"), "sweep"], capture_output=True, text=True,
+                           timeout=600, cwd=ROOT, env=env)
+    except subprocess.TimeoutExpired:
+        raise EngineError("native long-plan run timed out")
+    line = [l for l in p.stdout.splitlines() if l.startswith("SWEEP ")]
+    if p.returncode != 0 or not line:
+        raise EngineError(f"native long-plan run failed: {(p.stdout + p.stderr)[-800:]}")
+    r = json.loads(line[-1][6:])
+    if r["messages"] < 5000:
+        raise EngineError("native long-plan run too short")
+    I.w.check(E_LONG, not r["failures"], {"replay": "long_plans.sweep_replay", "failures": r["failures"][:3], "messages": r["messages"]})
